@@ -121,3 +121,25 @@ Theorem C07_other_algorithm_rejected : forall f now r depth store chain c,
   certs_verify f now r depth store chain = false.
 Proof. exact other_algorithm_rejected. Qed.
 Print Assumptions C07_other_algorithm_rejected.
+
+(* validity is decided over unbounded integers (time_t differences are never truncated or wrapped) *)
+Theorem C07_validity_check_exact : forall nb na now : Z,
+  validity_check nb na now = true <-> (nb <= na /\ na - nb <= X509_VALIDITY_MAX_SECONDS /\ nb <= now <= na).
+Proof. exact validity_check_exact. Qed.
+Print Assumptions C07_validity_check_exact.
+
+Theorem C07_validity_no_wraparound : forall nb na now k,
+  0 < k -> validity_check (now + k) na now = false /\ validity_check nb (now - k) now = false.
+Proof. exact validity_no_wraparound. Qed.
+Print Assumptions C07_validity_no_wraparound.
+
+(* a self-issued CA certificate counts against depth and pathLen like any other (C07_depth_respected and
+   C07_pathlen_respected quantify over all names); pinned on a key-rollover chain *)
+Example C07_self_issued_ca_counts :
+  (forall f, In f [legacy; repaired] ->
+     certs_verify f 1500 RoleServer 2 [ro_root 2] [ro_leaf; ro_new; ro_old 1] = true /\
+     certs_verify f 1500 RoleServer 1 [ro_root 2] [ro_leaf; ro_new; ro_old 1] = false /\
+     certs_verify f 1500 RoleServer 2 [ro_root 2] [ro_leaf; ro_new; ro_old 0] = false /\
+     certs_verify f 1500 RoleServer 2 [ro_root 1] [ro_leaf; ro_new; ro_old 1] = false).
+Proof. exact self_issued_ca_counts. Qed.
+Print Assumptions C07_self_issued_ca_counts.
